@@ -10,18 +10,18 @@ from harness import remap_engine as R
 PLANS = {
     "quick": {
         "C01": [("valid", "valid", 2, 2, 0, 9000), ("perturbed", "perturb", 1, 2, 1, 7000)],
-        "C02": [("valid", "valid", 2, 3, 0, 12000)],
+        "C02": [("valid", "valid", 2, 3, 0, 10000), ("valid-sim", "valid", 5, 3, 0, 2500)],
         "C07": [("valid", "valid", 2, 3, 0, 12000), ("perturbed", "perturb", 1, 1, 1, 3000)],
         "C08": [("null", "null", 0, 400, 0, None)],
         "C11": [("valid", "valid", 2, 3, 0, 12000)],
         "C09": [("tagged", "tagged", 3, 0, 0, 7000, "plain"), ("tagged-hap", "tagged", 3, 0, 0, 7000, "hap")],
     },
     "thorough": {
-        "C01": [("valid", "valid", 2, 8, 0, 25000), ("perturbed", "perturb", 1, 4, 2, 12000), ("valid3", "valid", 3, 0, 0, 8000)],
-        "C02": [("valid", "valid", 2, 10, 0, 30000), ("valid3", "valid", 3, 0, 0, 12000)],
+        "C01": [("valid", "valid", 2, 8, 0, 25000), ("perturbed", "perturb", 1, 4, 2, 12000), ("valid-sim", "valid", 5, 4, 0, 8000)],
+        "C02": [("valid", "valid", 2, 10, 0, 30000), ("valid-sim", "valid", 5, 4, 0, 12000)],
         "C07": [("valid", "valid", 2, 10, 0, 30000), ("perturbed", "perturb", 1, 2, 1, 8000)],
         "C08": [("null", "null", 0, 3000, 0, None)],
-        "C11": [("valid", "valid", 2, 10, 0, 30000), ("valid3", "valid", 3, 0, 0, 10000)],
+        "C11": [("valid", "valid", 2, 10, 0, 30000), ("valid-sim", "valid", 5, 4, 0, 10000)],
         "C09": [("tagged", "tagged", 3, 2, 0, 20000, "plain"), ("tagged-hap", "tagged", 3, 2, 0, 20000, "hap"), ("tagged4", "tagged", 4, 0, 0, 12000, "hap")],
     },
 }
@@ -48,11 +48,13 @@ def main_for(pid, tier, replay=None):
         (label, mode, maxedits, nrandom, maxperturb, cap), style = plan[:6], (plan[6] if len(plan) > 6 else "plain")
         for tn, td in R.TEXELS[tier]:
             keep = (lambda o: o["valid"] == 0) if mode == "perturb" else None
-            objs, r = R.export(run, f"pv-{label}-{tn}-{td}", tn, td, mode, maxedits, nrandom, maxperturb, cap=cap, rng=rng, keep=keep, style=style)
+            sim = f"num={max(50, cap // 80)}" if label == "valid-sim" else None     # random edit scripts of up to maxedits gestures (TLC simulation mode)
+            objs, r = R.export(run, f"pv-{label}-{tn}-{td}", tn, td, mode, maxedits, nrandom, maxperturb, cap=cap, rng=rng, keep=keep, style=style,
+                               simulate=sim, workers=(1 if sim else 8))
             if cap and len(objs) == cap:
                 sampled = True
             for o in objs:
-                o["cls"] = label if label != "valid3" else "valid"
+                o["cls"] = label if label != "valid-sim" else "valid"
             scen += objs
             exports.append({"class": label, "texel": f"{tn}/{td}", "mode": mode, "max_edits": maxedits, "random_shapes": nrandom, "max_perturb": maxperturb,
                             "model_states": r["distinct"], "model_transitions": r["generated"], "scenarios_used": len(objs), "wall_s": r["wall_s"]})
